@@ -394,7 +394,7 @@ class RSocketBase(RSocket, RSocketInternal):
             next_fragment = next_frame_source.get_next_fragment(transport.requires_length_header())
 
             if next_fragment.flags_follows:
-                self._send_queue.put_nowait(self._send_queue.get_nowait())  # cycle to next frame source in queue
+                self._cycle_to_next_frame_source()
             else:
                 next_frame_source.get_next_fragment(
                     transport.requires_length_header())  # workaround to clean-up generator.
@@ -405,6 +405,29 @@ class RSocketBase(RSocket, RSocketInternal):
         else:
             self._send_queue.get_nowait()
             yield next_frame_source
+
+    def _cycle_to_next_frame_source(self):
+        """
+        Move the partially sent frame source behind the frames of other streams, but keep it
+        ahead of any queued frame of its own stream, so frames of a stream are never sent
+        in between the fragments of an earlier frame of the same stream.
+        """
+        frame_source = self._send_queue.get_nowait()
+
+        items = []
+        while not self._send_queue.empty():
+            items.append(self._send_queue.get_nowait())
+
+        position = len(items)
+        for index, item in enumerate(items):
+            if item.stream_id == frame_source.stream_id:
+                position = index
+                break
+
+        items.insert(position, frame_source)
+
+        for item in items:
+            self._send_queue.put_nowait(item)
 
     async def _sender(self):
         try:
